@@ -3,6 +3,7 @@ import BobEM.Props.C02
 import BobEM.Props.C14
 import BobEM.Lemmas.KMeansDescent
 import BobEM.Lemmas.FAPerm
+import BobEM.Lemmas.IVectorIdent
 
 /-!
 # C16 — A trained model is a function of the labelled sample multiset and the seed only
@@ -118,3 +119,66 @@ open BobEM.FA in
 example (a b c : St 1 1 ℝ) : SameSessions [[a, b], [c]] [[c], [b, a]] :=
   ⟨[[b, a], [c]], List.Forall₂.cons (List.Perm.swap b a []) (List.Forall₂.cons (List.Perm.refl _) List.Forall₂.nil),
     List.Perm.swap [c] [b, a] []⟩
+
+
+/-! ### i-vector training: order of the training statistics and their partitioning -/
+
+section IVOrder
+open BobEM.IV
+variable {C D R : ℕ}
+
+theorem iv_eStep_snorm (m : IV.Machine C D R ℝ) (l : List (IV.GStat C D ℝ)) (c : Fin C) (d : Fin D) :
+    (IV.eStep m l).snorm c d = (l.map fun st => (IV.contrib m st).snorm c d).sum := by
+  induction l with
+  | nil => simp [IV.eStep, IV.Stats.zero]
+  | cons x l ih => rw [eStep_cons]; simp [IV.Stats.add, ih]
+
+/-- the E-step accumulators do not depend on the order of the statistics -/
+theorem iv_eStep_perm (m : IV.Machine C D R ℝ) (l l' : List (IV.GStat C D ℝ)) (h : l.Perm l') :
+    IV.eStep m l = IV.eStep m l' := by
+  have ext : ∀ a b : IV.Stats C D R ℝ, a.nsw2 = b.nsw2 → a.fsw = b.fsw → a.snorm = b.snorm → a.nij = b.nij → a = b := by
+    intro a b h1 h2 h3 h4; cases a; cases b; simp_all
+  apply ext
+  · funext c t u; rw [eStep_nsw2, eStep_nsw2]; exact (h.map _).sum_eq
+  · funext c d t; rw [eStep_fsw, eStep_fsw]; exact (h.map _).sum_eq
+  · funext c d; rw [iv_eStep_snorm, iv_eStep_snorm]; exact (h.map _).sum_eq
+  · funext c; rw [eStep_nij, eStep_nij]; exact (h.map _).sum_eq
+
+/-- **i-vector training** gives the same extractor for the same multiset of training statistics, in
+whatever order they arrive and however they are split into partitions (with or without the covariance
+update, any floor, any number of iterations) -/
+theorem C16_ivector_sample_order (m0 : IV.Machine C D R ℝ) (parts parts' : List (List (IV.GStat C D ℝ)))
+    (h : parts.flatten.Perm parts'.flatten) (updateSigma : Bool) (floor : ℝ) (k : ℕ) :
+    IV.fit m0 parts updateSigma floor k = IV.fit m0 parts' updateSigma floor k := by
+  induction k with
+  | zero => rfl
+  | succ k ih =>
+    simp only [IV.fit, IV.iterate, ih]
+    rw [eStep_partition, eStep_partition, iv_eStep_perm _ _ _ h]
+end IVOrder
+
+
+/-! ### MAP training and whitening: order of the samples -/
+
+/-- **MAP training** sees the data only through order-invariant statistics: every iterate, and hence
+whatever loop is run on them, is the same for any order of the samples -/
+theorem C16_gmm_map_sample_order {C D : ℕ} (sq : ℝ → ℝ) (cfg : MapCfg (C+1) D ℝ) (ubm p0 : Params (C+1) D ℝ)
+    {xs ys : List (Fin D → ℝ)} (h : xs.Perm ys) (c0 : ℝ) (k : ℕ) :
+    traj (gmmMapIter sq cfg ubm xs) p0 c0 k = traj (gmmMapIter sq cfg ubm ys) p0 c0 k := by
+  have hstep : gmmMapIter sq cfg ubm xs = gmmMapIter sq cfg ubm ys := by
+    funext p; simp only [gmmMapIter, C02_perm p h]
+  rw [hstep]
+
+/-- **Whitening**: permuting the rows leaves the fit unchanged -/
+theorem C16_whitening_sample_order {N D : ℕ} (chol : (n : ℕ) → (Fin n → Fin n → ℝ) → Fin n → Fin n → ℝ)
+    (X : Fin N → Fin D → ℝ) (σ : Equiv.Perm (Fin N)) :
+    Lin.whitenFit chol (fun n => X (σ n)) = Lin.whitenFit chol X := by
+  have hmean : Lin.colMean (fun n => X (σ n)) = Lin.colMean X := by
+    funext d
+    simp only [Lin.colMean, sumFin_eq]
+    rw [Equiv.sum_comp σ (fun n => X n d)]
+  have hcov : Lin.covMat (fun n => X (σ n)) = Lin.covMat X := by
+    funext a b
+    simp only [Lin.covMat, hmean, sumFin_eq]
+    rw [Equiv.sum_comp σ (fun n => (X n a - Lin.colMean X a) * (X n b - Lin.colMean X b))]
+  simp only [Lin.whitenFit, hmean, hcov]
